@@ -111,8 +111,29 @@ fn one<S: Strategy<Value = Ev> + 'static>(e: S) -> BoxedStrategy<Vec<Ev>> {
 }
 
 fn scenario_v(rm: BoxedStrategy<Option<u16>>, ev: BoxedStrategy<Vec<Ev>>, len: std::ops::Range<usize>) -> BoxedStrategy<Scenario> {
-    (rm, vec(ev, len))
-        .prop_map(|(receive_max, events)| Scenario { receive_max, max_packet_size: None, events: flat(events) })
+    (rm, vec(ev, len), id_offset(2))
+        .prop_map(|(receive_max, events, id_offset)| Scenario { receive_max, max_packet_size: None, id_offset, events: flat(events) })
+        .boxed()
+}
+
+/// identifiers consumed before the history: mostly none, often past 255, rarely right
+/// before the 16-bit wrap-around (`heavy` = how often, in parts of 1000)
+fn id_offset(heavy: u32) -> BoxedStrategy<u32> {
+    prop_oneof![
+        (600 - heavy.min(100)) => Just(0u32),
+        300 => 250u32..300,
+        100 => prop::sample::select(vec![254u32, 255, 256, 510, 1000]),
+        heavy => prop::sample::select(vec![65_280u32, 65_500, 65_530]),
+    ]
+    .boxed()
+}
+
+fn with_offset(s: BoxedStrategy<Scenario>, heavy: u32) -> BoxedStrategy<Scenario> {
+    (s, id_offset(heavy))
+        .prop_map(|(mut s, o)| {
+            s.id_offset = o;
+            s
+        })
         .boxed()
 }
 
@@ -127,8 +148,8 @@ fn target_any() -> BoxedStrategy<Target> {
 }
 
 fn scenario(rm: BoxedStrategy<Option<u16>>, ev: BoxedStrategy<Ev>, len: std::ops::Range<usize>) -> BoxedStrategy<Scenario> {
-    (rm, vec(ev, len))
-        .prop_map(|(receive_max, events)| Scenario { receive_max, max_packet_size: None, events })
+    (rm, vec(ev, len), id_offset(2))
+        .prop_map(|(receive_max, events, id_offset)| Scenario { receive_max, max_packet_size: None, id_offset, events })
         .boxed()
 }
 
@@ -211,7 +232,7 @@ impl Property for C05 {
         ];
         Box::new(
             sequences(alphabet, tier.pick(5, 7), worker, workers)
-                .map(|events| Scenario { receive_max: None, max_packet_size: None, events }),
+                .map(|events| Scenario { receive_max: None, max_packet_size: None, id_offset: 0, events }),
         )
     }
 
@@ -279,10 +300,11 @@ impl Property for C06 {
             1 => Just(vec![Ev::PollCtx]),
             1 => sel().prop_map(|sel| vec![Ev::PollOp { sel }]),
         ];
-        (vec(ev, 1..tier.pick(40, 120)))
-            .prop_map(|evs| Scenario {
+        (vec(ev, 1..tier.pick(40, 120)), id_offset(2))
+            .prop_map(|(evs, id_offset)| Scenario {
                 receive_max: None,
                 max_packet_size: None,
+                id_offset,
                 events: evs.into_iter().flatten().collect(),
             })
             .boxed()
@@ -388,7 +410,7 @@ impl Property for C07 {
             }
             events.push(Ev::In(Inbound::Publish { qos: 1, dup: false, retain: false, pid: 0, target: Target::Two(at(127), at(128)), payload_len: 1 }));
             events.push(Ev::In(Inbound::Publish { qos: 0, dup: false, retain: false, pid: 0, target: Target::Two(at(n - 1), at(0)), payload_len: 1 }));
-            v.push(Scenario { receive_max: None, max_packet_size: None, events });
+            v.push(Scenario { receive_max: None, max_packet_size: None, id_offset: 0, events });
         }
         Box::new(v.into_iter())
     }
@@ -440,6 +462,9 @@ impl Property for C08 {
             3 => one(start(vec![(3, OpKind::Sub(0)), (1, OpKind::Pub1), (1, OpKind::Pub2), (1, OpKind::Ping)])),
             3 => one(ack(deco())),
             10 => one(in_publish((0u8..3).boxed(), Just(0u16).boxed(), target_any())),
+            // a small identifier pool: the same QoS 2 PUBLISH sent again before its PUBREL
+            // must be answered with PUBREC again
+            3 => one(in_publish(Just(2u8).boxed(), (1u16..4).boxed(), target_any())),
             3 => one((1u16..5, any::<bool>()).prop_map(|(pid, known)| Ev::In(Inbound::Pubrel { pid, known }))),
             // a PUBREL sent twice in a row (the broker lost the PUBCOMP)
             1 => (1u16..5).prop_map(|pid| vec![
@@ -535,7 +560,7 @@ impl Property for C09 {
             .prop_map(|evs| {
                 let mut events = c09_prologue();
                 events.extend(evs);
-                Scenario { receive_max: None, max_packet_size: None, events }
+                Scenario { receive_max: None, max_packet_size: None, id_offset: 0, events }
             })
             .boxed()
     }
@@ -559,7 +584,7 @@ impl Property for C09 {
         Box::new(sequences(alphabet, tier.pick(6, 8), worker, workers).map(|evs| {
             let mut events = c09_prologue();
             events.extend(evs);
-            Scenario { receive_max: None, max_packet_size: None, events }
+            Scenario { receive_max: None, max_packet_size: None, id_offset: 0, events }
         }))
     }
 
@@ -639,12 +664,12 @@ impl Property for C10 {
             events.push(Ev::In(Inbound::Ack { sel: 30000, deco: ok }));
             events.push(Ev::Start { h: 0, kind: OpKind::Pub1, settle: false });
             events.push(Ev::Start { h: 0, kind: OpKind::Pub2, settle: false });
-            fill.push(Scenario { receive_max: if worker == 0 { None } else { Some(65535) }, max_packet_size: None, events });
+            fill.push(Scenario { receive_max: if worker == 0 { None } else { Some(65535) }, max_packet_size: None, id_offset: 0, events });
         }
         Box::new(
             sequences(alphabet, depth, worker, workers)
-                .map(|events| Scenario { receive_max: Some(1), max_packet_size: None, events })
-                .chain(sequences(a2, depth, worker, workers).map(|events| Scenario { receive_max: Some(2), max_packet_size: None, events }))
+                .map(|events| Scenario { receive_max: Some(1), max_packet_size: None, id_offset: 0, events })
+                .chain(sequences(a2, depth, worker, workers).map(|events| Scenario { receive_max: Some(2), max_packet_size: None, id_offset: 0, events }))
                 .chain(fill),
         )
     }
@@ -701,8 +726,8 @@ impl Property for C14 {
     type Case = Scenario;
 
     fn strategy(tier: Tier) -> BoxedStrategy<Scenario> {
-        (rm_small(), mixed_history(tier))
-            .prop_map(|(receive_max, events)| Scenario { receive_max, max_packet_size: None, events })
+        (rm_small(), mixed_history(tier), id_offset(0))
+            .prop_map(|(receive_max, events, id_offset)| Scenario { receive_max, max_packet_size: None, id_offset, events })
             .boxed()
     }
 
@@ -720,7 +745,7 @@ impl Property for C14 {
         for k in 0..=case.events.len() {
             let mut events: Vec<Ev> = case.events[..k].to_vec();
             events.push(Ev::DropCtx);
-            let scn = Scenario { receive_max: case.receive_max, max_packet_size: None, events };
+            let scn = Scenario { receive_max: case.receive_max, max_packet_size: None, id_offset: case.id_offset, events };
             let out = run(&scn, &cfg);
             if out.stats.phases_at_drop.len() >= 2 || out.stats.stream_buffered_at_drop {
                 o.nontrivial = true;
@@ -755,7 +780,7 @@ impl Property for C14 {
             events.push(Ev::Terminate(cause.clone()));
             events.push(Ev::Settle);
             events.push(Ev::DropCtx);
-            let scn = Scenario { receive_max: case.receive_max, max_packet_size: None, events };
+            let scn = Scenario { receive_max: case.receive_max, max_packet_size: None, id_offset: case.id_offset, events };
             let out = run(&scn, &cfg);
             o.class(format!("drop-after-run-returned-{}", cause_name(&cause)));
             if let Some(mut f) = failure_for(&out, &["C14/"]) {
@@ -778,6 +803,7 @@ fn strip_cancellations(s: &Scenario) -> Scenario {
     Scenario {
         receive_max: s.receive_max,
         max_packet_size: s.max_packet_size,
+        id_offset: s.id_offset,
         events: s
             .events
             .iter()
@@ -805,13 +831,21 @@ impl Property for C15 {
             2 => stream_events().prop_map(|e| vec![e, Ev::Settle]),
             1 => Just(vec![Ev::PollCtx]),
         ];
-        (prop::sample::select(vec![Some(1u16), Some(2), Some(3), Some(5), None]), vec(ev, 1..tier.pick(40, 120)))
+        let s = (prop::sample::select(vec![Some(1u16), Some(2), Some(3), Some(5), None]), vec(ev, 1..tier.pick(40, 120)))
             .prop_map(|(receive_max, evs)| Scenario {
                 receive_max,
                 max_packet_size: None,
+                id_offset: 0,
                 events: evs.into_iter().flatten().collect(),
             })
-            .boxed()
+            .boxed();
+        let s = (s, id_offset(2))
+            .prop_map(|(mut s, o)| {
+                s.id_offset = o;
+                s
+            })
+            .boxed();
+        s
     }
 
     fn cases(tier: Tier) -> u32 {
@@ -832,7 +866,7 @@ impl Property for C15 {
         ];
         Box::new(
             sequences(alphabet, tier.pick(5, 7), worker, workers)
-                .map(|events| Scenario { receive_max: Some(1), max_packet_size: None, events }),
+                .map(|events| Scenario { receive_max: Some(1), max_packet_size: None, id_offset: 0, events }),
         )
     }
 
@@ -1108,7 +1142,10 @@ impl Property for C16 {
             scenario(Just(None).boxed(), ev, 1..tier.pick(30, 80)),
             vec((any::<u16>(), 0u8..3), 0..8),
         )
-            .prop_map(|(scn, spurious)| C16Case { scn, spurious })
+            .prop_map(|(mut scn, spurious)| {
+                scn.id_offset = scn.id_offset.min(300);
+                C16Case { scn, spurious }
+            })
             .boxed()
     }
 
@@ -1133,6 +1170,7 @@ impl Property for C16 {
         let base = Scenario {
             receive_max: None,
             max_packet_size: None,
+            id_offset: case.scn.id_offset,
             events: case.scn.events.iter().filter(|e| !matches!(e, Ev::DropStream { .. })).cloned().collect(),
         };
         let mut with_spurious = base.clone();
